@@ -511,6 +511,28 @@ impl Message {
         let bytes = apps::gen(app, flavor, over_tcp, rng);
         let segment = over_tcp && rng.below(1000) < focus.segment_pm;
         let mut cuts = gen_cuts(rng, bytes.len(), segment, app);
+        if over_tcp && app == App::Rpc && rng.chance(1, 3) {
+            // a cut at (or inside) the record mark of a continuation fragment
+            let mut i = 0usize;
+            let mut marks = Vec::new();
+            while i + 4 <= bytes.len() {
+                let m = u32::from_be_bytes([bytes[i], bytes[i + 1], bytes[i + 2], bytes[i + 3]]);
+                marks.push(i);
+                i += 4 + (m & 0x7fff_ffff) as usize;
+                if marks.len() > 8 {
+                    break;
+                }
+            }
+            if marks.len() > 1 {
+                let m = marks[1 + rng.usize_below(marks.len() - 1)];
+                let c = m + rng.below(5) as usize;
+                if c > 0 && c < bytes.len() {
+                    cuts.push(c);
+                    cuts.sort();
+                    cuts.dedup();
+                }
+            }
+        }
         if over_tcp && bytes.len() > 1400 {
             // a sender cannot put more than its segment size into one segment
             let mss = *rng.pick(&[536usize, 1220, 1460, 1460, 4000]);
@@ -575,6 +597,8 @@ pub struct TcpClient {
     pub options: Vec<u8>,
     /// the tuple is reused: a new SYN is sent between two messages
     pub resyn: bool,
+    /// urgent pointer carried by segments that have URG set (0, inside or beyond the payload)
+    pub urg_ptr: u16,
     /// spurious retransmissions (same sequence number, same bytes): 0 none, 1 the last segment
     /// of every message once more, 2 every segment but the first of a message once more
     pub rexmit: u8,
@@ -623,7 +647,7 @@ impl TcpClient {
             _ => F_SYN,
         };
         let data_flags = match rng.below(12) {
-            0 => F_PSH | F_ACK | F_URG,
+            0 | 3 => F_PSH | F_ACK | F_URG,
             1 => F_PSH | F_ACK | F_FIN,
             2 => F_PSH | F_ACK | *rng.pick(&[F_ECE, F_CWR, F_NS, F_SYN, F_RST]),
             _ => F_PSH | F_ACK,
@@ -649,13 +673,16 @@ impl TcpClient {
             pre_data: rng.chance(1, 12),
             close: *rng.pick(&[0u8, 1, 1, 1, 2, 3]),
             start_us: rng.below(plan.horizon_us * 2 / 3 + 1),
-            gap_us: *rng.pick(&[10u64, 200, 1000, 5000, 50_000, 400_000]),
+            // mostly back to back; now and then a client that pauses for a minute or five between
+            // its segments (simulated time costs nothing)
+            gap_us: if rng.chance(1, 16) { *rng.pick(&[31_000_000u64, 61_000_000, 125_000_000, 301_000_000]) } else { *rng.pick(&[10u64, 200, 1000, 5000, 50_000, 400_000]) },
             rto_us: *rng.pick(&[200_000u64, 1_000_000, 3_000_000]),
             ttl: rng.range(1, 255) as u8,
             window: rng.u16(),
             options: if rng.chance(1, 3) { vec![2, 4, 5, 0xb4, 1, 3, 3, 7] } else { Vec::new() },
             resyn: rng.chance(1, 6),
             rexmit: *rng.pick(&[0u8, 0, 0, 0, 0, 1, 1, 2]),
+            urg_ptr: *rng.pick(&[0u16, 0, 1, 1, 2, 3, 5, 16, 0xffff]),
             cookie: None,
             syn_tries: 0,
             sent_data: false,
@@ -670,7 +697,7 @@ impl TcpClient {
             ack,
             flags,
             window: self.window,
-            urg: 0,
+            urg: if flags & F_URG != 0 { self.urg_ptr } else { 0 },
             options: if opts { self.options.clone() } else { Vec::new() },
         };
         let t = tcp(&f, payload, &self.a.src, &self.a.dst);
@@ -1344,6 +1371,7 @@ impl TcpClient {
             options: Vec::new(),
             resyn: false,
             rexmit: 0,
+            urg_ptr: 0,
             cookie: None,
             syn_tries: 0,
             sent_data: false,
@@ -1383,6 +1411,7 @@ impl TcpClient {
             options: Vec::new(),
             resyn: false,
             rexmit: 0,
+            urg_ptr: 0,
             cookie: None,
             syn_tries: 0,
             sent_data: false,
